@@ -124,14 +124,30 @@ def confirm(v):
     t, mdl = v['task'], v['model']
     if not mdl:
         return False, 'no model'
-    x = mdl['n'] if t['sign'] >= 0 else -mdl['n']
-    out = native_cbrt(x, t['scale'], t['p'], t['mode'])
-    if out.startswith('PANIC'):
-        return True, out
-    ri, rs = H.parse_dec(out)
-    ei, es = exact_cbrt_rounded(x, t['scale'], t['p'], t['mode'])
-    M = max(rs, es)
-    return ri * 10 ** (M - rs) != ei * 10 ** (M - es), '%s (exact: %d@%d)' % (out, ei, es)
+    def one(n):
+        x = n if t['sign'] >= 0 else -n
+        out = native_cbrt(x, t['scale'], t['p'], t['mode'])
+        if out.startswith('PANIC'):
+            return True, out
+        ri, rs = H.parse_dec(out)
+        ei, es = exact_cbrt_rounded(x, t['scale'], t['p'], t['mode'])
+        M = max(rs, es)
+        return ri * 10 ** (M - rs) != ei * 10 ** (M - es), '%s (exact: %d@%d)' % (out, ei, es)
+    ok, out = one(mdl['n'])
+    if ok:
+        return ok, out
+    # The root contract leaves the integer root and its exactness flag free, so a model's n need not have the root the
+    # model assumed.  Search natively among inputs of the same task shape that ARE consistent with an exact root
+    # (perfect cubes times powers of ten, outside the known-finding region) before calling the model unconfirmed.
+    for n in K.perfect_power_candidates(t['nd'], 3, mdl['n']):
+        if in_known_region(n, t['scale'], t['p']):
+            continue
+        ok2, out2 = one(n)
+        if ok2:
+            mdl['n_from_solver'] = mdl['n']
+            mdl['n'] = n
+            return True, out2 + ' [witness found natively among perfect cubes of this task shape]'
+    return ok, out
 
 
 def in_known_region(x, scale, p):
